@@ -3,13 +3,13 @@ package c05
 
 import (
 	"bytes"
-	"fmt"
 	"strings"
 
 	"go.pennock.tech/tabular/csv"
 
 	"verif/harness/internal/ev"
 	"verif/harness/internal/gen"
+	"verif/harness/internal/oracle"
 )
 
 const ID = "C05"
@@ -17,60 +17,6 @@ const ID = "C05"
 // Case is a build history of string cells.
 type Case struct {
 	Script gen.Script `json:"script"`
-}
-
-// ParseStrict reads the all-fields-quoted RFC 4180 subset:
-//
-//	file   = *record
-//	record = field *("," field) LF
-//	field  = DQUOTE *(non-DQUOTE / 2DQUOTE) DQUOTE
-//
-// Anything else (text outside quotes, a missing final LF, CR LF as the
-// record terminator) is a parse failure.
-func ParseStrict(in []byte) ([][]string, error) {
-	var recs [][]string
-	pos := 0
-	for pos < len(in) {
-		var rec []string
-		for {
-			if pos >= len(in) || in[pos] != '"' {
-				return nil, fmt.Errorf("offset %d: field does not start with a quote", pos)
-			}
-			pos++
-			var f []byte
-			for {
-				if pos >= len(in) {
-					return nil, fmt.Errorf("offset %d: unterminated quoted field", pos)
-				}
-				if in[pos] == '"' {
-					if pos+1 < len(in) && in[pos+1] == '"' {
-						f = append(f, '"')
-						pos += 2
-						continue
-					}
-					pos++
-					break
-				}
-				f = append(f, in[pos])
-				pos++
-			}
-			rec = append(rec, string(f))
-			if pos >= len(in) {
-				return nil, fmt.Errorf("offset %d: record not terminated by LF", pos)
-			}
-			if in[pos] == ',' {
-				pos++
-				continue
-			}
-			if in[pos] == '\n' {
-				pos++
-				break
-			}
-			return nil, fmt.Errorf("offset %d: byte %q after a closing quote", pos, in[pos])
-		}
-		recs = append(recs, rec)
-	}
-	return recs, nil
 }
 
 // Expected computes the records the statement demands from the model.
@@ -113,7 +59,7 @@ func CheckCase(c Case) *ev.Violation {
 	if err != nil {
 		return ev.V("render failed on a table with %d columns: %v", ncols, err)
 	}
-	recs, perr := ParseStrict([]byte(out))
+	recs, perr := oracle.ParseCSV([]byte(out))
 	if perr != nil {
 		return ev.V("output is not strict all-quoted RFC 4180: %v\noutput: %q", perr, out)
 	}
